@@ -164,3 +164,177 @@ def case_term(case, **kw):
     ia = obs_term(case["init"]["a"], "a")
     ib = obs_term(case["init"]["b"], "b")
     return "(%s, (%s, %s), %s)" % (cfg_term(case), ia, ib, clist(steps)), n, reason
+
+
+# ---------------------------------------------------------------------------
+# C01view: terms for Channel/ViewExec.v (the incremental machine of Channel/View.v)
+
+VIEW_IMPORTS = ("From Coq Require Import List ZArith NArith Bool.\nImport ListNotations.\n"
+                "From LV Require Import Channel.Model Channel.Resync Channel.Exec Channel.View "
+                "Channel.ViewExec.\n")
+
+VIEW_CODES = ("1 result; 2-7 A.ltail/ltip/rtail/rtip/own_idx/peer_idx of the INCREMENTAL machine's "
+              "evaluated views; 12-17 same for B; 20+ init; 30+ commitments of a reloaded party; 40/41 "
+              "retransmission kinds; [61|62|63, pos, LogIndex] A's own log: presence|identity|heights of "
+              "the entry at list position pos; [64|65|66,..] A's peer log; [71..76,..] B; [161../171..] "
+              "the same on a party RESTORED from disk; [50, x, y] write-level crash")
+
+
+def hl_term(h):
+    def rows(l):
+        return "[" + ";".join("[" + ";".join(str(int(x)) for x in e) + "]" for e in l) + "]%Z"
+    return "(hl_of %s %s)" % (rows(h["own"]), rows(h["peer"]))
+
+
+def view_step_terms(case, with_reload=True, with_cut=True, expect_fail=False):
+    """Same schedule -> term mapping as step_terms (kept in step with it), for
+    ViewExec.vtstep; every step additionally carries the height-log dumps."""
+    out = []
+    reason = None
+    for st in case["steps"]:
+        op, res = st["op"], st["res"]
+        k = op[0]
+        ex = st.get("extra") or {}
+        hl = st.get("hl")
+        if not isinstance(hl, dict) or not all(isinstance(hl.get(p), dict) for p in ("a", "b")):
+            reason = "no height-log dump"
+            break
+        t = None
+        if k == "add":
+            t = ("VTOp (VOp (OSend %s (UAdd %s %s %s))) Ok" % (pb(op[1]), cZ(op[2]), cZ(op[3]), cZ(op[4]))
+                 if res == "ok" else "VTSkip")
+        elif k in ("settle", "fail"):
+            u = "USettle" if k == "settle" else "UFail"
+            t = "VTOp (VOp (OSend %s (%s %s))) Ok" % (pb(op[1]), u, cnat(op[2])) if res == "ok" else "VTSkip"
+        elif k == "malformed":
+            t = "VTOp (VMalformed %s %s) Ok" % (pb(op[1]), cnat(op[2])) if res == "ok" else "VTSkip"
+        elif k == "fee":
+            t = "VTOp (VOp (OSend %s (UFee %s))) Ok" % (pb(op[1]), cZ(op[2])) if res == "ok" else "VTSkip"
+        elif k == "sign":
+            if res == "ok":
+                t = "VTOp (VOp (OSign %s)) Ok" % pb(op[1])
+            elif res == "no_window":
+                t = "VTOp (VOp (OSign %s)) ErrNoWindow" % pb(op[1])
+            else:
+                # a refused sign: fetchCommitmentView may have marked heights before failing
+                reason = "sign error %s" % res
+                break
+        elif k == "revoke":
+            if res == "ok":
+                t = "VTOp (VOp (ORevoke %s)) Ok" % pb(op[1])
+            elif res == "no_pending":
+                t = "VTOp (VOp (ORevoke %s)) ErrNothing" % pb(op[1])
+            else:
+                reason = "revoke error %s" % res
+                break
+        elif k == "deliver":
+            if res == "ok":
+                t = "VTOp (VOp (ODeliver %s)) Ok" % pb(op[1])
+            elif res == "no_pending":
+                t = "VTOp (VOp (ODeliver %s)) ErrNothing" % pb(op[1])
+            elif expect_fail and st is case["steps"][-1] and ex.get("kind") == "sig":
+                t = "VTOp (VOp (ODeliver %s)) ErrSigInvalid" % pb(op[1])
+            else:
+                reason = "deliver %s error %s" % (ex.get("kind"), res)
+                break
+        elif k == "side":
+            t = "VTSkip"
+        elif k == "crash":
+            if not with_reload or ex.get("err") or "reloaded" not in ex or not ex.get("hl_reloaded"):
+                if ex.get("err"):
+                    reason = "reload error"
+                    break
+                t = "VTSkip"
+            else:
+                t = "VTReload %s %s %s" % (pb(op[1]), obs_term(ex["reloaded"], op[1]),
+                                          hl_term(ex["hl_reloaded"]))
+        elif k == "cut":
+            if not with_cut:
+                reason = "cut"
+                break
+            if ex.get("err_a") or ex.get("err_b") or any(d[2] != "ok" for d in ex.get("delivered", [])):
+                reason = "cut error"
+                break
+            ka = sum(1 for d in ex.get("delivered", []) if d[0] == "a")
+            kb = sum(1 for d in ex.get("delivered", []) if d[0] == "b")
+            rh = ex.get("hl_reloaded") or {}
+            rel = "None"
+            if rh.get("a") and rh.get("b"):
+                rel = "(Some (%s, %s))" % (hl_term(rh["a"]), hl_term(rh["b"]))
+            t = "VTCut %s %s %s %s %s" % (
+                cnat(ka), cnat(kb),
+                clist([cN(KIND[x]) for x in ex.get("sync_a", [])]),
+                clist([cN(KIND[x]) for x in ex.get("sync_b", [])]), rel)
+        elif k == "crashin":
+            if res == "no_pending":
+                t = "VTSkip"
+            else:
+                if not with_cut:
+                    reason = "crashin"
+                    break
+                rel = (ex.get("reloaded") or {}).get(op[1])
+                rh = (ex.get("hl_reloaded") or {}).get(op[1])
+                if ex.get("err_a") or ex.get("err_b") or not rel or not rh or res != "ok":
+                    reason = "crashin error"
+                    break
+                if op[2] == "sync":
+                    call = "VCCSync"
+                else:
+                    call = "(VCCOp (VOp (%s %s)))" % ({"sign": "OSign", "revoke": "ORevoke",
+                                                       "deliver": "ODeliver"}[op[2]], pb(op[1]))
+                t = "VTCrashIn %s %s %s %s %s %s" % (
+                    call, pb(op[1]), obs_term(rel, op[1]), hl_term(rh),
+                    clist([cN(KIND[x]) for x in ex.get("sync_a", [])]),
+                    clist([cN(KIND[x]) for x in ex.get("sync_b", [])]))
+        else:
+            reason = "unknown op %s" % k
+            break
+        same = st.get("hl_same") or {}
+        ha = "None" if same.get("a") else "(Some %s)" % hl_term(hl["a"])
+        hb = "None" if same.get("b") else "(Some %s)" % hl_term(hl["b"])
+        out.append("(%s, %s, %s, %s, %s)" % (t, obs_term(st["a"], "a"), obs_term(st["b"], "b"), ha, hb))
+    return out, len(out), reason
+
+
+def view_case_term(case, **kw):
+    """None when the trace carries no height logs (older harness / other test)."""
+    ih = case.get("init_hl")
+    if not ih or not ih.get("a") or not ih.get("b"):
+        return None, 0, "no height-log dump"
+    steps, n, reason = view_step_terms(case, **kw)
+    ia = obs_term(case["init"]["a"], "a")
+    ib = obs_term(case["init"]["b"], "b")
+    return "(%s, (%s, %s), (%s, %s), %s)" % (cfg_term(case), ia, ib, hl_term(ih["a"]), hl_term(ih["b"]),
+                                            clist(steps)), n, reason
+
+
+def view_locate(row, codes):
+    """Human-readable location of a ViewExec mismatch: (step index, description, entry)."""
+    stepi = codes[0] if codes else -1
+    code = codes[1] if len(codes) > 1 else None
+    info = {"step_index": stepi, "code": codes[1:]}
+    if code is None or not (0 <= stepi < len(row["steps"])):
+        return info
+    st = row["steps"][stepi]
+    info["step"] = {"op": st["op"], "res": st["res"]}
+    c = code % 100
+    if 61 <= c <= 66 or 71 <= c <= 76:
+        p = "a" if c < 70 else "b"
+        kind = (c % 10 - 1) % 3
+        lname = "own" if (c % 10) <= 3 else "peer"
+        pos = codes[2] if len(codes) > 2 else None
+        restored = code >= 100
+        src = None
+        if restored:
+            rh = (st.get("extra") or {}).get("hl_reloaded") or {}
+            src = rh if "own" in rh else rh.get(p)
+        else:
+            src = (st.get("hl") or {}).get(p)
+        ent = None
+        if isinstance(src, dict) and pos is not None and pos < len(src[lname]):
+            ent = src[lname][pos]
+        info.update({"party": p, "log": lname, "restored_object": restored,
+                     "what": ("presence (compaction / restore)", "identity", "commit heights")[kind],
+                     "list_position": pos, "log_index": codes[3] if len(codes) > 3 else None,
+                     "impl_entry[type,LogIndex,HtlcIndex,ParentIndex,Amount,addL,addR,rmL,rmR]": ent})
+    return info
